@@ -322,6 +322,67 @@ example : specRange (lit ['b','y','t','e','s','=','-','0']) 10 = none := by deci
 example : specRange (lit ['i','t','e','m','s','=','1','-','2']) 10 = none := by decide
 example : (requestedRange (lit ['b','y','t','e','s','=','2','-','5',',','7','-']) 10).isValid = true := by decide
 
+/-- the directory clause on the composed run: the listing goes out with a Content-Length equal
+    to its length (any listing oracle, any number of acknowledgements / turns afterwards) -/
+theorem holds_run_dir (env : Env) (fe : FsEnv) (req head : Bytes) (snap : Snap) (loc : List Bytes)
+    (d : Bytes) (tail : List Event) (complete : Bool)
+    (hreq : breakOn CRLF2 req = some (head, []))
+    (hexp : C01.expect env head = some snap)
+    (hcl : HeaderMap.contains Sock.CONTENT_LENGTH snap.headers = false)
+    (hplan : plan fe (snap.path.drop 1) snap.headers = .dir loc d)
+    (htail : tail.all C03L.allowedEv = true) :
+    holds fe (snap.path.drop 1) (HeaderMap.value RANGE snap.headers) complete
+      (FsHandler.run env fe (.new :: .feed req :: tail)).sock.log = true := by
+  obtain ⟨rh, p, q, hparse, hurl, rfl⟩ := (C01.expect_eq_some_iff env head snap).1 hexp
+  simp only at hcl hplan ⊢
+  have hwire := run_wire_answered env fe req head rh p q 200 (lit ['O','K']) (dirHdrs (fe.listing loc d))
+    (fe.listing loc d) tail hreq hparse hurl hcl (hpResult_dir env fe rh p q loc d hplan)
+    (hpOps_dir (s := hpSock rh p q) hplan).2 htail
+  have hplan' : plan fe (p.drop 1) [(RANGE, HeaderMap.value RANGE rh.headers)] = .dir loc d := by
+    rw [plan_congr fe _ (value_RANGE_single _)]; exact hplan
+  unfold holds
+  cases complete with
+  | false => rfl
+  | true =>
+    have hparse' := parse_answered 200 (lit ['O','K']) (dirHdrs (fe.listing loc d)) (fe.listing loc d)
+      (by omega) (by decide) (entryOk_dirHdrs _)
+    simp only [Bool.not_true, Bool.false_eq_true, if_false, hplan', hwire, hparse', valuesOf_CL_dirHdrs]
+    simp [one]
+
+/-- an unserved path: the predicate asks nothing of the response -/
+theorem holds_notFound (fe : FsEnv) (path rangeHdr : Bytes) (complete : Bool) (obs : List Obs)
+    (hplan : plan fe path [(RANGE, rangeHdr)] = .notFound) :
+    holds fe path rangeHdr complete obs = true := by
+  unfold holds
+  cases complete with
+  | false => rfl
+  | true => simp only [Bool.not_true, Bool.false_eq_true, if_false, hplan]
+
+/-- **C08 on the composed run, every outcome of `process`**: scenario shape `new`, the whole
+    request in one `feed`, a turn, then any acknowledgements and turns; the request head is one
+    `C01.expect` accepts, without Content-Length; if the path is served as a file, the file is not
+    larger than one copy block and its MIME type name has no CR. -/
+theorem holds_run_any (env : Env) (fe : FsEnv) (req head : Bytes) (snap : Snap) (tail : List Event)
+    (complete : Bool)
+    (hreq : breakOn CRLF2 req = some (head, []))
+    (hexp : C01.expect env head = some snap)
+    (hcl : HeaderMap.contains Sock.CONTENT_LENGTH snap.headers = false)
+    (hfile : ∀ loc r, plan fe (snap.path.drop 1) snap.headers = .file loc r →
+      (fe.content loc).length ≤ 65536 ∧ containsByte CR (fe.mime loc) = false)
+    (htail : tail.all C03L.allowedEv = true) :
+    holds fe (snap.path.drop 1) (HeaderMap.value RANGE snap.headers) complete
+      (FsHandler.run env fe (.new :: .feed req :: .turn :: tail)).sock.log = true := by
+  cases hplan : plan fe (snap.path.drop 1) snap.headers with
+  | notFound =>
+    apply holds_notFound
+    rw [plan_congr fe _ (value_RANGE_single _)]; exact hplan
+  | dir loc d =>
+    exact holds_run_dir env fe req head snap loc d (.turn :: tail) complete hreq hexp hcl hplan
+      (by rw [List.all_cons, htail]; rfl)
+  | file loc r =>
+    obtain ⟨h1, h2⟩ := hfile loc r hplan
+    exact holds_run env fe req head snap loc r tail complete hreq hexp hcl hplan h1 h2 htail
+
 /-! ### non-vacuity of `holds_run` -/
 
 def exEnv : Env := { url := fun raw => some (raw, []), errPage := fun _ _ => [] }
